@@ -162,6 +162,12 @@ struct Session {
   next_id: u64,
 }
 
+/// the URI an editor sends for a file: percent-encoded (spaces, non-ASCII letters, `#`, `?` in file
+/// names), exactly as the `url` crate — which the server uses for the URIs it publishes — writes it
+fn file_uri(p: &std::path::Path) -> String {
+  url::Url::from_file_path(p).map(|u| u.to_string()).unwrap_or_else(|_| format!("file://{}", p.display()))
+}
+
 impl Session {
   fn path_of(&self, m: &ModName) -> PathBuf {
     let mut p = self.root.clone();
@@ -182,7 +188,7 @@ impl Session {
       Some("<untitled>") => "untitled:Untitled-1".to_string(),
       Some("<rootdir>") => format!("file://{}", self.root.display()),
       Some("<short>") => format!("file://{}/a", self.root.display()),
-      _ => format!("file://{}", self.path_of(m).display()),
+      _ => file_uri(&self.path_of(m)),
     }
   }
   fn write_file(&self, m: &ModName, text: &str) {
@@ -784,7 +790,7 @@ pub fn execute_l2(sc: &Scenario, mode: Mode, tag: &str, mut trace: Option<&mut V
               for (i, part) in m.iter().enumerate() {
                 if i + 1 == m.len() { p.push(format!("{part}.sam")) } else { p.push(part) }
               }
-              format!("file://{}", p.display())
+              file_uri(&p)
             };
             let got = published_to_diags(&world_now, &uri_of, &published);
             let want = match panics::catch(|| fresh_diags(&world_now, knobs.with_std)) {
